@@ -14,6 +14,6 @@ if mode == 'fixed':
 else:
     what = sys.argv[4]
     e = dict(property=prop, key=key, status='open', what=what)
-d['findings'] = [x for x in d['findings'] if not (x['property'] == prop and x['key'] == key)] + [e]
+d['findings'] = [x for x in d['findings'] if not (x['property'] == prop and x['key'] == key and x.get('commit') == e.get('commit'))] + [e]
 json.dump(d, open(p, 'w'), indent=1)
 print(e)
